@@ -64,6 +64,7 @@ from numpy import absolute
 from numpy import allclose
 from numpy import amax
 from numpy import arange
+from numpy import asarray
 from numpy import atleast_2d
 from numpy import concatenate
 from numpy import divide
@@ -302,6 +303,10 @@ class DisciplineJacApprox:
         if isinstance(step, Sized) and 1 < len(step) != len(x_vect):
             msg = f"Inconsistent step size, expected {x_vect.size} got {len(step)}."
             raise ValueError(msg)
+
+        if x_indices and isinstance(step, Sized) and len(step) > 1:
+            # One step per input component: keep the steps of the differentiated components.
+            step = asarray(step)[list(x_indices)]
 
         # The inputs that are not differentiated keep their current values
         # (the function generated from the discipline reads them from the defaults),
